@@ -70,6 +70,8 @@ type Exec struct {
 	entryEnv map[string]*Val
 	aborted  string
 	overflow bool // generate no-overflow obligations for machine integers
+	// set while a package initializer is executed to learn the initial values of its package-level variables
+	captureGlobals map[*ssa.Global]*Val
 	specDone   map[string]bool
 	revealed   map[string]bool
 	lemmasUsed map[string]bool
@@ -287,6 +289,11 @@ func (x *Exec) loadNoCheck(st *State, p *Val) *Val {
 	case PElem:
 		return st.loadElem(pi.Root, pi.Arr, pi.Idx, prefix, t)
 	case PGlobal:
+		if x.captureGlobals != nil {
+			if v, ok := x.captureGlobals[pi.Global]; ok {
+				return subVal(v, pi.Path) // inside the package initializer: the value stored earlier
+			}
+		}
 		g := x.globalVal(st, pi.Global)
 		return subVal(g, pi.Path)
 	}
@@ -313,7 +320,11 @@ func (x *Exec) store(fr *Frame, st *State, in ssa.Instruction, p *Val, v *Val) {
 	case PElem:
 		err = st.storeElem(pi.Root, pi.Arr, pi.Idx, prefix, v)
 	case PGlobal:
-		x.note("write to package-level variable " + pi.Global.String())
+		if x.captureGlobals != nil && len(pi.Path) == 0 {
+			x.captureGlobals[pi.Global] = v
+		} else {
+			x.note("write to package-level variable " + pi.Global.String())
+		}
 	}
 	if err != nil {
 		x.note(err.Error() + " in " + fr.fn.Name())
@@ -388,7 +399,55 @@ func (x *Exec) globalVal(st *State, g *ssa.Global) *Val {
 	for _, wf := range wellFormed(v) {
 		st.Assume(wf)
 	}
+	// numbers and strings set once by the package initializer from constants (package-level variables of the repository are
+	// never written afterwards: effect obligation global.write, C11)
+	if strings.HasPrefix(g.Pkg.Pkg.Path(), repoModule) && (v.K == VBig || v.K == VInt) {
+		if iv := x.P.globalInit(g); iv != nil && iv.K == v.K {
+			la, lb := v.leaves(), iv.leaves()
+			for i := range la {
+				if la[i] != nil && lb[i] != nil {
+					st.Assume(Eq(la[i], lb[i]))
+				}
+			}
+		}
+	}
 	return v
+}
+
+var globalInitCache = map[*ssa.Package]map[*ssa.Global]*Val{}
+
+// globalInit runs the package initializer symbolically (once per package) and returns the value it stores into g when that
+// value is a closed constant term; nil otherwise.
+func (p *Program) globalInit(g *ssa.Global) *Val {
+	m, done := globalInitCache[g.Pkg]
+	if !done {
+		m = map[*ssa.Global]*Val{}
+		globalInitCache[g.Pkg] = m
+		initFn := g.Pkg.Func("init")
+		if initFn != nil && len(initFn.Blocks) > 0 {
+			func() {
+				defer func() { _ = recover() }()
+				x := NewExec(p)
+				x.noPanic, x.overflow = false, false
+				x.maxPaths = 4
+				x.captureGlobals = map[*ssa.Global]*Val{}
+				st := x.initState()
+				x.runFunction(initFn, nil, st, 0, "", nil, func(*State, []*Val) {})
+				for gl, v := range x.captureGlobals {
+					closed := true
+					for _, l := range v.leaves() {
+						if l == nil || !(l.K == TNum || l.K == TBoolLit) {
+							closed = false
+						}
+					}
+					if closed {
+						m[gl] = v
+					}
+				}
+			}()
+		}
+	}
+	return m[g]
 }
 
 // ---------- running ----------
